@@ -43,6 +43,12 @@ func cosimOptions(f *model.File, optimize, lm bool) comp.Options {
 	if lm {
 		o.Path = "prog.pory"
 	}
+	if f.Switches != nil {
+		o.Switches = map[string]string{}
+		for k, v := range f.Switches {
+			o.Switches[k] = v
+		}
+	}
 	if f.AutoVars != nil {
 		o.AutoVars = map[string]comp.AutoVar{}
 		for k, v := range f.AutoVars {
@@ -166,6 +172,10 @@ func (a *atomSet) block(f *model.File, b []*model.Stmt) {
 				}
 			}
 			a.block(f, s.Body)
+		case model.KPory:
+			for _, c := range s.PCases {
+				a.block(f, c.Body)
+			}
 		case model.KSwitch:
 			name := s.Sw.Var
 			if s.Sw.Auto != nil {
@@ -872,4 +882,20 @@ func c05FullEval(src string, oa, ob *comp.Options, files map[string]string, envs
 		}
 	}
 	return "", "", "", none, nil, nil, ""
+}
+
+// DebugOuts prints, per run, a hash of the emitted text of the generated program under
+// optimize=false / optimize=true (debugging aid: diff the listing of two builds to see
+// whether a source change alters any output at all).
+func DebugOuts(prop string, seed, count uint64) {
+	for i := uint64(0); i < count; i++ {
+		runSeed := rng.RunSeed(seed, prop, i)
+		gr := rng.New(rng.Sub(runSeed, "gen"))
+		cfg := gen.DrawConfig(gr, gen.Profile(prop), false)
+		f := gen.File(gr, cfg)
+		p := buildProgram(f, 0, 1, false)
+		_, a := compileFor(p, false, false)
+		_, b := compileFor(p, true, false)
+		fmt.Printf("%d %x %x\n", i, rng.HashStr(a.Key()), rng.HashStr(b.Key()))
+	}
 }
